@@ -139,7 +139,10 @@ struct Literal {
 }
 
 fn literal(rng: &mut Rng) -> Literal {
+    // (a twelfth of the literals are long runs of words without a period: 18 to 40 integer digits)
+    let long_integer = rng.chance(1, 12);
     let n = match rng.below(8) {
+        _ if long_integer => rng.range(18, 40),
         0 => 1,
         1 => rng.range(10, 25),
         _ => rng.range(1, 9),
@@ -152,11 +155,14 @@ fn literal(rng: &mut Rng) -> Literal {
     let mut shape = Vec::new();
     let mut lengths = Vec::new();
     const NOISE: &[&str] = &[",", " ,", ", ", "!", "?", ";", ":", " ' ", "  ", "\t", " (la la) ", " (a\u{301}) "];
-    if rng.chance(1, 15) {
+    if rng.chance(1, 15) && !long_integer {
         text.push_str(". ");
         elems.push(PoeticElem::Dot);
         seen_dot = true;
         shape.push("dot_first");
+    }
+    if long_integer {
+        shape.push("long_integer_part");
     }
     for i in 0..n {
         let w = pword(rng, i == 0 && elems.is_empty());
@@ -186,7 +192,7 @@ fn literal(rng: &mut Rng) -> Literal {
             text.push_str(p);
             shape.push("noise_between_words");
         }
-        if i + 1 < n && rng.chance(1, if seen_dot { 10 } else { 4 }) {
+        if i + 1 < n && !long_integer && rng.chance(1, if seen_dot { 10 } else { 4 }) {
             text.push_str(*rng.pick(&[".", " .", ". "]));
             text.push(' ');
             elems.push(PoeticElem::Dot);
